@@ -82,7 +82,7 @@ def run(chk, tier):
                 "a whole vector); an evaluation is non-trivial if the perturbed value differs and the recomputation succeeded")
     chk.assumptions = ["TLC and the Json/IOUtils community modules are correct",
                        "a challenge that is recomputed from a changed sponge input differs except with probability < 2^-50 "
-                       "(>= 2^8 LDE points and >= 9 queries for the index vector, 64-bit field elements otherwise)",
+                       "(num_queries * lde_bits >= 64 for the index vector compared as a whole, 64-bit field elements otherwise)",
                        "num_challenges, the wire/gate layout and CircuitConfig outside FriParams are not transcript components "
                        "(they reach the PLONK transcript only through the circuit digest); STARK: FriParams (hiding, degree, "
                        "arity list) are not absorbed and the trace length is an implicit prover message bound through "
@@ -91,7 +91,8 @@ def run(chk, tier):
     common.build_harness("release", "c04")
     # ---------------------------------------------------------------- A: TLC (lattice, mutants) while the harness
     # builds the circuits / proofs whose configurations the specification is then evaluated at
-    jobs = [("Transcript", "Transcript", 6, None), ("StarkTranscript", "StarkTranscript", 6, None),
+    lat = "" if thorough else "_quick"       # quick: the sub-lattice layers in {0,2}, two strategies
+    jobs = [("Transcript", "Transcript" + lat, 6, None), ("StarkTranscript", "StarkTranscript" + lat, 6, None),
             ("Transcript", "Transcript_mutants", 2, None), ("StarkTranscript", "StarkTranscript_mutants", 2, None)]
     jobs += [(m, c, 1, None) for m, c in CANARIES]
     with ThreadPoolExecutor(max_workers=5) as ex:
@@ -101,7 +102,7 @@ def run(chk, tier):
         cfgs = {"plonk": {}, "stark": {}}
         for c in cases0:
             cfgs[c["system"]][_key(c["cfg"])] = c["cfg"]
-            if c["lde_bits"] < 8 or c["cfg"]["q"] < 9:
+            if c["lde_bits"] * c["cfg"]["q"] < 64:      # whole-vector coincidence of the query indices < 2^-64
                 raise ToolError("configuration %s too small for whole-vector comparison of query indices" % c["config"])
         envp = {}
         for sname in cfgs:
